@@ -32,7 +32,7 @@ REAL_VS_STUB = {"real": ["incomplete_cooperative.generators", "graph_game", "net
 ASSUMPTIONS = ["class membership is monitored on the draws made, with the documented relative tolerance 1e-9; it is "
                "not decided for all seeds", "documented exceptions (graph-weight-distribution family, round-robin "
                "factory) are exempt from the twin comparison only"]
-PROBES = ["twin_across_entropy_jump", "twin_in_worker_fork", "twin_in_worker_fresh", "exception_family_drawn",
+PROBES = ["returned_game_mutated_by_caller", "twin_across_entropy_jump", "twin_in_worker_fork", "twin_in_worker_fresh", "exception_family_drawn",
           "cheerleader_drawn", "monotone_family_drawn"]
 TIERS = {
     "quick": {"runs": 40000, "wall": 40, "batch": 24, "shrink_s": 40},
@@ -58,11 +58,27 @@ def is_exception(key: str) -> bool:
     return fn is getattr(G, "graph_generator", None) or fn is getattr(G, "predictible_factory_generator", None)
 
 
-def draw(key: str, n: int, seed: int) -> np.ndarray:
-    """Module-level so that it pickles by reference into a simulated worker."""
+def draw(key: str, n: int, seed: int, consume: int = 0) -> np.ndarray:
+    """Module-level so that it pickles by reference into a simulated worker.
+
+    `consume` > 0: after the game has been described, its caller uses it the way real consumers do - in
+    place (normalise it, overwrite values): a returned game belongs to the caller.
+    """
     from incomplete_cooperative.generators import GENERATORS
     g = GENERATORS[key](n, np.random.Generator(np.random.PCG64(seed)))
-    return _describe(g, n)
+    d = _describe(g, n)
+    if consume:
+        try:
+            from incomplete_cooperative.normalize import normalize_game
+            if consume == 1:
+                normalize_game(g)
+            elif hasattr(g, "set_values"):
+                g.set_values(np.arange(2 ** n, dtype=np.float64) * 7.0 - 3.0)
+            else:
+                normalize_game(g)
+        except Exception:
+            pass
+    return d
 
 
 def _describe(g, n: int):
@@ -133,7 +149,10 @@ def run(sim: Sim) -> None:
                         res = p.starmap(draw, extra + [(key, n, seed)])
                 d = res[-1]
             else:
-                d = draw(key, n, seed)
+                consume = sim.choose(3, "caller-mutates-returned-game")
+                if consume:
+                    sim.probe("returned_game_mutated_by_caller")
+                d = draw(key, n, seed, consume)
         monitor(sim, key, n, seed, d)
         return d
 
